@@ -42,7 +42,12 @@ from dask_expr._expr import (
     determine_column_projection,
     plain_column_projection,
 )
-from dask_expr._util import _convert_to_list, _tokenize_deterministic, is_scalar
+from dask_expr._util import (
+    _convert_to_list,
+    _get_shuffle_preferring_order,
+    _tokenize_deterministic,
+    is_scalar,
+)
 
 
 class Chunk(Blockwise):
@@ -237,7 +242,10 @@ class ShuffleReduce(Expr):
                 shuffle_npartitions,
                 ignore_index=ignore_index,
                 index_shuffle=not split_by_index and self.shuffle_by_index,
-                method=self.shuffle_method,
+                # the aggregation can depend on the order of the chunks
+                # (first, last, head, tail, keep="first"): the disk based
+                # shuffle returns them in the order the tasks happened to run
+                method=_get_shuffle_preferring_order(self.shuffle_method),
             )
 
         # Unmap column names if necessary
